@@ -28,7 +28,7 @@ var pidTokens = []string{"1", "7", "25007", "4194304", "2147483647"}
 // ---------------- C06 ----------------
 
 func c06Corpus(tier string, seed int64) []vlib.SshCase {
-	n := 40000
+	n := 120000
 	if tier == "thorough" {
 		n = 3000000
 	}
@@ -182,7 +182,7 @@ func checkC19(r *vlib.Run) int {
 	nValid := len(c06Corpus(r.Tier, r.Seed))
 	nHost := r.Pick(30000, 1500000)
 	if !r.Thorough() {
-		nValid = 40000
+		nValid = 120000
 	}
 	n := nValid + nHost
 	res := runChildren(r, "mon", "c19", n, (n+47)/48, 10*time.Minute)
@@ -338,7 +338,7 @@ func childC17(args []string) {
 }
 
 func checkC17(r *vlib.Run) int {
-	n := r.Pick(60000, 3000000)
+	n := r.Pick(240000, 3000000)
 	res := runChildren(r, "mon", "c17", n, (n+47)/48, 10*time.Minute)
 	r.Set("events_compared", res.stats["events_compared"])
 	r.Set("names_with_space", res.stats["names_with_space"])
@@ -579,7 +579,7 @@ func childC11(args []string) {
 }
 
 func checkC11(r *vlib.Run) int {
-	n := r.Pick(200000, 10000000)
+	n := r.Pick(400000, 10000000)
 	classes := map[string]int{}
 	total := 0
 	dist := vlib.NewDistinct()
